@@ -244,7 +244,9 @@ def prop_ref(case):
 
 def mc_configs(thorough):
     out = []
-    for c in c02.mc_configs(['fast_nonMarkov_SIS_exp'], thorough=thorough):
+    # the statement's last clause: with exponential rules the engine coincides in law with fast_SIS - both are held against the
+    # same master equation on the same configurations
+    for c in c02.mc_configs(['fast_nonMarkov_SIS_exp', 'fast_SIS'], thorough=thorough):
         out.append(c)
     return out
 
